@@ -124,16 +124,16 @@ def run_binary(src, flags, inp, wd):
         shutil.rmtree(wd, ignore_errors=True)
 
 
-def coq_cert_items(cases):
+def coq_cert_items(cases, thm="c01_compiled_trace_is_a_reading"):
     items = []
     for k, (name, c) in enumerate(cases):
         defs = ["Definition p_%d : list stmt := %s." % (k, refsem.prog_coq(c["epr"])),
                 "Definition d_%d : dfa := %s." % (k, export.coq_dfa(c["em"]))]
-        items.append((name, defs, "sim_cert byte_syms p_%d d_%d" % (k, k), "(c01_compiled_trace_is_a_reading byte_syms p_%d d_%d)" % (k, k)))
+        items.append((name, defs, "sim_cert byte_syms p_%d d_%d" % (k, k), "(%s byte_syms p_%d d_%d)" % (thm, k, k)))
     return items
 
 
-def coq_certs(dirname, items, per_file=6):
+def coq_certs(dirname, items, per_file=6, thm_module="Props.C01"):
     """like mach.coq_certs but against the Ref development"""
     from concurrent.futures import ThreadPoolExecutor
     d = os.path.join(common.BUILD, dirname)
@@ -142,7 +142,7 @@ def coq_certs(dirname, items, per_file=6):
     files = []
     for fi in range(0, len(items), per_file):
         part = items[fi:fi + per_file]
-        L = [export.COQ_PRELUDE, "From NV Require Import Machine.Sem Machine.Bisim Machine.BBisim Regex.Re Ref.Lang Ref.RefSem Ref.Sim Ref.RefCert Props.C01."]
+        L = [export.COQ_PRELUDE, "From NV Require Import Machine.Sem Machine.Bisim Machine.BBisim Regex.Re Ref.Lang Ref.RefSem Ref.Sim Ref.RefCert %s." % thm_module]
         for k, (name, defs, cert, inst) in enumerate(part):
             L += defs
             L.append("Example cert_%d : %s = true. Proof. vm_compute. reflexivity. Qed." % (fi + k, cert))
@@ -157,6 +157,57 @@ def coq_certs(dirname, items, per_file=6):
     with ThreadPoolExecutor(max_workers=common.NCPU) as ex:
         res = list(ex.map(one, files))
     return [x for part in res for x in part]
+
+
+def validate(ctx, progs, levels, quick, builddir, thm, thm_module, ncoq):
+    """compile every (program tree, source, flags) at the given levels, validate each accepted one against the reading;
+    violations are reported through ctx; returns statistics"""
+    verd, feats = collections.Counter(), collections.Counter()
+    cases, tasks = [], []
+    for i, (p, src, flags) in enumerate(progs):
+        for lvl in ([levels[i % len(levels)]] if quick else levels):
+            c = convert(p, src, flags, lvl)
+            verd[c["verdict"]] += 1
+            if c["verdict"] != "ok":
+                continue
+            c.update(name="gen%d%s" % (i, lvl), src=src, flags=[lvl] + flags, p=p, eof="-feof-support" in flags)
+            cases.append(c)
+            tasks.append(refsem.task_ref(c["epr"], c["em"], c["I"], c["eof"]))
+            if lvl == levels[0] or quick:
+                feats.update(gen.features(p))
+    ctx.log("compiled -> %d accepted cases" % len(cases))
+    results = refsem.run_refk(tasks, timeout=600)
+    ctx.log("validator done")
+    tbl_sizes, nviol, okc = [], 0, 0
+    for c, res in zip(cases, results):
+        if res.startswith("ok"):
+            okc += 1
+            tbl_sizes.append(int(res.split()[1]))
+            continue
+        nviol += 1
+        if res.startswith("mismatch"):
+            info = parse_mismatch(res)
+            inp = info.get("input", [])
+            rep = {"program": c["src"], "flags": c["flags"], "input": inp, "broken": "certificate Ref.RefCert.sim_cert (%s)" % thm,
+                   "reading_allows": info.get("reading", "")[:700], "machine_does": info.get("machine", "")[:700], "where": info.get("configuration", info.get("kind")),
+                   "primitives": {("p%d" % k): pi["key"] for k, pi in enumerate(c["I"].prim_info)}, "tests": {("t%d" % k): ti["key"] for k, ti in enumerate(c["I"].test_info)},
+                   "binary": run_binary(c["src"], c["flags"], [b for b in inp if b < 256], os.path.join(common.BUILD, builddir, "r%d" % nviol)) if nviol <= 5 else None}
+            ctx.violation("sim:%s" % c["name"], "the compiled parser takes a step the procedural reading does not allow (input %r, then symbol %s)" % (bytes(b for b in inp[:-1] if b < 256)[:40], inp[-1] if inp else "start"),
+                          rep, found_input=True)
+        else:
+            ctx.violation("sim-checker:%s" % c["name"], "validator failed on an accepted program: " + res[:120],
+                          {"program": c["src"], "flags": c["flags"], "broken": "certificate Ref.RefCert.sim_cert"}, found_input=False)
+    # ---- kernel-checked certificates for a sample of small cases
+    small = [c for c, res in zip(cases, results) if res.startswith("ok") and int(res.split()[1]) <= 40 and len(c["m"]["states"]) <= 40 and not c["eof"]]
+    ctx.rng.shuffle(small)
+    items = coq_cert_items([(c["name"], c) for c in small[:ncoq]], thm)
+    cres = coq_certs(builddir, items, thm_module=thm_module)
+    ctx.log("in-Coq certificates done")
+    coq_ok = sum(1 for _, ok, _ in cres if ok)
+    for name, ok, tail in cres:
+        if not ok:
+            ctx.violation("coq-cert:%s" % name, "in-Coq certificate rejected although the extracted validator accepted", {"broken": "Example cert (vm_compute)", "output": tail}, found_input=False)
+    return dict(cases=cases, results=results, verd=verd, feats=feats, tbl_sizes=tbl_sizes, nviol=nviol, okc=okc, coq_ok=coq_ok)
 
 
 def run(ctx):
@@ -210,62 +261,20 @@ def run(ctx):
     # ---- generated programs
     nprog = 170 if quick else 2500
     levels = ["-O0", "-O3"] if quick else ["-O0", "-O1", "-O2", "-O3"]
-    verd, feats = collections.Counter(), collections.Counter()
-    cases, tasks = [], []
-    for i in range(nprog):
-        r = random.Random(ctx.rng.getrandbits(48))
-        yields = r.random() < 0.2
-        p, src = gen.gen_program(r, profile(r, yields))
-        flags = ["-fyield-support"] if yields else []
-        for lvl in ([levels[i % len(levels)]] if quick else levels):
-            c = convert(p, src, flags, lvl)
-            verd[c["verdict"]] += 1
-            if c["verdict"] != "ok":
-                continue
-            c.update(name="gen%d%s" % (i, lvl), src=src, flags=[lvl] + flags, p=p)
-            cases.append(c)
-            tasks.append(refsem.task_ref(c["epr"], c["em"], c["I"], False))
-            if lvl == levels[0] or quick:
-                feats.update(gen.features(p))
-    ctx.log("compiled %d programs -> %d accepted cases" % (nprog, len(cases)))
-    results = refsem.run_refk(tasks, timeout=600)
-    ctx.log("validator done")
-    tbl_sizes, nviol, okc = [], 0, 0
-    for c, res in zip(cases, results):
-        if res.startswith("ok"):
-            okc += 1
-            tbl_sizes.append(int(res.split()[1]))
-            continue
-        nviol += 1
-        if res.startswith("mismatch"):
-            info = parse_mismatch(res)
-            inp = info.get("input", [])
-            rep = {"program": c["src"], "flags": c["flags"], "input": inp, "broken": "certificate Ref.RefCert.sim_cert (Props/C01.v c01_compiled_trace_is_a_reading)",
-                   "reading_allows": info.get("reading", "")[:700], "machine_does": info.get("machine", "")[:700], "where": info.get("configuration", info.get("kind")),
-                   "primitives": {("p%d" % k): pi["key"] for k, pi in enumerate(c["I"].prim_info)}, "tests": {("t%d" % k): ti["key"] for k, ti in enumerate(c["I"].test_info)},
-                   "binary": run_binary(c["src"], c["flags"], inp, os.path.join(common.BUILD, "c01", "r%d" % nviol)) if nviol <= 5 else None}
-            ctx.violation("sim:%s" % c["name"], "the compiled parser takes a step the procedural reading does not allow (input %r, then symbol %s)" % (bytes(inp[:-1])[:40], inp[-1] if inp else "start"),
-                          rep, found_input=True)
-        else:
-            ctx.violation("sim-checker:%s" % c["name"], "validator failed on an accepted program: " + res[:120],
-                          {"program": c["src"], "flags": c["flags"], "broken": "certificate Ref.RefCert.sim_cert"}, found_input=False)
-    # ---- kernel-checked certificates for a sample of small cases
-    small = [c for c, res in zip(cases, results) if res.startswith("ok") and int(res.split()[1]) <= 40 and len(c["m"]["states"]) <= 40]
-    ctx.rng.shuffle(small)
-    items = coq_cert_items([(c["name"], c) for c in small[:(18 if quick else 90)]])
-    cres = coq_certs("c01", items)
-    ctx.log("in-Coq certificates done")
-    coq_ok = sum(1 for _, ok, _ in cres if ok)
-    for name, ok, tail in cres:
-        if not ok:
-            ctx.violation("coq-cert:%s" % name, "in-Coq certificate rejected although the extracted validator accepted", {"broken": "Example cert (vm_compute)", "output": tail}, found_input=False)
+    def progs():
+        for i in range(nprog):
+            r = random.Random(ctx.rng.getrandbits(48))
+            yields = r.random() < 0.2
+            p, src = gen.gen_program(r, profile(r, yields))
+            yield p, src, (["-fyield-support"] if yields else [])
+    st = validate(ctx, progs(), levels, quick, "c01", "c01_compiled_trace_is_a_reading", "Props.C01", 18 if quick else 90)
     ctx.coverage.update({
-        "programs": len(cases), "programs_certified_extracted": okc, "programs_certified_in_coq": coq_ok, "disagreements_checked": nviol,
-        "known_finding_witnesses_reproduced": known, "compiler_verdicts": dict(verd), "levels": levels,
-        "statement_kinds": dict(feats), "reading_configurations_per_program": sorted(tbl_sizes)[::max(1, len(tbl_sizes) // 10)],
-        "machine_states_distribution": sorted(len(c["m"]["states"]) for c in cases)[::max(1, len(cases) // 10)],
+        "programs": len(st["cases"]), "programs_certified_extracted": st["okc"], "programs_certified_in_coq": st["coq_ok"], "disagreements_checked": st["nviol"],
+        "known_finding_witnesses_reproduced": known, "compiler_verdicts": dict(st["verd"]), "levels": levels,
+        "statement_kinds": dict(st["feats"]), "reading_configurations_per_program": sorted(st["tbl_sizes"])[::max(1, len(st["tbl_sizes"]) // 10)],
+        "machine_states_distribution": sorted(len(c["m"]["states"]) for c in st["cases"])[::max(1, len(st["cases"]) // 10)],
         "theorems": ["Props/C01.v c01_compiled_trace_is_a_reading (= RefCert.sim_cert_sound)", "Props/C01.v c01_step (= Sim.sim_lock_sem)"],
         "checker_cmd": "ocaml/refk (extracted Ref.RefCert.sim_run) + coqc build/c01/cert_*.v",
     })
-    for c, res in list(zip(cases, results))[:: max(1, len(cases) // 5)][:5]:
+    for c, res in list(zip(st["cases"], st["results"]))[:: max(1, len(st["cases"]) // 5)][:5]:
         ctx.samples.append({"program": c["src"], "flags": c["flags"], "result": res[:60]})
